@@ -43,12 +43,32 @@ def section(text, pat):
     return "\n".join(out).strip()
 
 
-def load_summary(path):
+def load_summary(paths):
+    """several summaries separated by ',': later ones override earlier ones (re-runs with the final code). A patch that does
+    not apply to the current HEAD any more ("<name> DOES-NOT-APPLY") keeps the result of the summary named by OLD_SUMMARY
+    (evaluated on the base commit OLD_BASE) and is marked as such."""
     res = {}
-    for line in open(path):
-        m = re.match(r"(\S+) rc=(\d+) errs=(\d+) fired=\[(.*)\]", line.strip())
-        if m:
-            res[m.group(1)] = {"rc": int(m.group(2)), "errs": int(m.group(3)), "fired": m.group(4).split()}
+    noapply = set()
+    for path in paths.split(","):
+        for line in open(path):
+            m = re.match(r"(\S+) rc=(\d+) errs=(\d+) fired=\[(.*)\]", line.strip())
+            if m:
+                res[m.group(1)] = {"rc": int(m.group(2)), "errs": int(m.group(3)), "fired": m.group(4).split(), "base": None}
+                noapply.discard(m.group(1))
+            elif line.strip().endswith("DOES-NOT-APPLY"):
+                noapply.add(line.split()[0])
+    old = os.environ.get("OLD_SUMMARY")
+    if old:
+        oldres = {}
+        for path in old.split(","):
+            for line in open(path):
+                m = re.match(r"(\S+) rc=(\d+) errs=(\d+) fired=\[(.*)\]", line.strip())
+                if m:
+                    oldres[m.group(1)] = {"rc": int(m.group(2)), "errs": int(m.group(3)), "fired": m.group(4).split(),
+                                          "base": os.environ.get("OLD_BASE", "earlier base")}
+        for n in noapply:
+            if n in oldres:
+                res[n] = oldres[n]
     return res
 
 
@@ -130,7 +150,8 @@ def main():
         meta = {"id": sid, "kind": "benign", "title": desc.splitlines()[0][:200] if desc else sid, "description": desc[:1500], "files": files,
                 "relevant_to": rel,
                 "origin": "sub-agent asked for behaviour-preserving refactorings (it built the crate and ran the test suite on each)",
-                "checks_that_fire": row["fired"] if row else None}
+                "checks_that_fire": row["fired"] if row else None,
+                "evaluated_on": (row.get("base") or head) if row else None}
         json.dump(meta, open(os.path.join(dst, "meta.json"), "w"), indent=1)
         brows.append(meta)
     lines = ["# Seeded changes and benign refactorings", "",
@@ -153,7 +174,8 @@ def main():
     lines += ["", "Benign refactorings:", "", "| id | files | checks that fire (should be none) |", "|---|---|---|"]
     for m in brows:
         fired = m["checks_that_fire"]
-        lines.append("| %s | %s | %s |" % (m["id"], ", ".join(m["files"]), "not run" if fired is None else (", ".join(fired) or "none")))
+        note = "" if m.get("evaluated_on") in (None, head) else " (patch predates the last fix: commit and no longer applies; evaluated on %s)" % m["evaluated_on"]
+        lines.append("| %s | %s | %s |" % (m["id"], ", ".join(m["files"]), "not run" if fired is None else ((", ".join(fired) or "none") + note)))
     open(os.path.join(sd, "README.md"), "w").write("\n".join(lines) + "\n")
     nv = [m for m in rows if m["valid"]]
     print("seeded: %d (valid %d), detected by some check: %d, by own check: %d" % (
